@@ -172,7 +172,7 @@ pub fn run_c18(ctx: &Ctx) -> Finish {
         ctx.scale(if thorough { 2_000 } else { 200 }) / if asan { 4 } else { 1 },
         || {
             (big_frames(), any::<bool>(), any::<bool>())
-                .prop_map(|(frames, alloc_all, with_slot)| InitCase { frames, alloc_all, with_slot })
+                .prop_map(|(frames, alloc_all, with_slot)| InitCase { frames, alloc_all, with_slot, dirty: if frames % 3 == 0 { 0xff } else { 0 } })
                 .boxed()
         },
         run_init_case,
@@ -189,7 +189,7 @@ pub fn run_c18(ctx: &Ctx) -> Finish {
                 any::<bool>(),
                 any::<bool>(),
             )
-                .prop_map(|(frames, alloc_all, with_slot)| InitCase { frames, alloc_all, with_slot })
+                .prop_map(|(frames, alloc_all, with_slot)| InitCase { frames, alloc_all, with_slot, dirty: if frames % 3 == 0 { 0xff } else { 0 } })
                 .boxed()
         },
         run_init_case,
